@@ -104,11 +104,13 @@ Definition contract (H : Type) (handler : nat -> Z -> H * table -> H * table) : 
     length (snd (handler i now (h, tb))) = length tb /\
     forall j, slot_ok now (get tb j) (get (snd (handler i now (h, tb))) j).
 
-(** * The handler contract with back-off: [mu] never increases, and a handler that arms some timer
-    at an instant [<= now] strictly decreases it (PTO: the remaining doublings). *)
+(** * The handler contract with back-off, at one instant [now] and relative to an invariant [Inv] of
+    the rest of the state: [mu] never increases, and a handler that arms some timer at an instant
+    [<= now] strictly decreases it (PTO: the remaining doublings). *)
 Definition contract_b (H : Type) (handler : nat -> Z -> H * table -> H * table) (mu : H -> nat)
-  : Prop :=
-  forall i now h tb,
+           (now : Z) (Inv : H -> Prop) : Prop :=
+  forall i h tb, Inv h ->
+    Inv (fst (handler i now (h, tb))) /\
     length (snd (handler i now (h, tb))) = length tb /\
     (mu (fst (handler i now (h, tb))) <= mu h)%nat /\
     ((forall j, slot_ok now (get tb j) (get (snd (handler i now (h, tb))) j))
@@ -128,6 +130,9 @@ Definition pto_handler (E : Z) (i : nat) (now : Z) (s : Pto * table) : Pto * tab
 (** remaining doublings until the deadline passes [now] (0 once it has) *)
 Definition pto_mu (E now : Z) (p : Pto) : nat :=
   if now <? pto_deadline E p then O else Z.to_nat (E - Z.min (pto_count p) E).
+(** service is late by less than the largest back-off *)
+Definition pto_inv (E now : Z) (p : Pto) : Prop :=
+  0 <= pto_count p /\ 0 < pto_base p /\ now < last_ae p + pto_base p * 2 ^ E.
 
 (** * Event polls: [Connection::poll] pops the event queue, then stream events, then a recorded
     error (once); [poll_endpoint_events] pops its own queue. *)
